@@ -72,11 +72,37 @@ func getJSONLogFile(versionID, dataID dvid.UUID) (lf *logFile, err error) {
 			dvid.Errorf("Could not open new JSON mutation log: %v\n", err)
 			return nil, err
 		}
+		if err = trimTornJSONLog(f); err != nil {
+			dvid.Errorf("Could not check the end of JSON mutation log %s: %v\n", fname, err)
+			f.Close()
+			return nil, err
+		}
 		dvid.Infof("Created mutation JSON log for data %s, version %s\n", dataID, versionID)
 		lf = &logFile{f: f}
 		jsonLogFiles[fname] = lf
 	}
 	return
+}
+
+// trimTornJSONLog cuts a record torn by a crash off the end of a mutation log, so that the next
+// record is not appended behind it, where it could never be read back.
+func trimTornJSONLog(f *os.File) error {
+	if _, err := f.Seek(0, 0); err != nil {
+		return err
+	}
+	r := protolog.NewReader(f)
+	var complete int64
+	for {
+		_, data, err := r.Next()
+		if err == io.ErrUnexpectedEOF {
+			dvid.Criticalf("mutation log %q ends in a torn record: cutting it after %d bytes\n", f.Name(), complete)
+			return f.Truncate(complete)
+		}
+		if err != nil {
+			return nil // io.EOF, or damage that is not a torn tail and is left as it is
+		}
+		complete += 10 + int64(len(data))
+	}
 }
 
 // LogJSONMutation logs a JSON mutation record to the Jsonstore directory in the config.
